@@ -21,7 +21,7 @@ RULE = ("JSON-expressible documents rendered as one JSON text (valid YAML flow s
         "text; the generic views are equal with numbers compared by value; typed results are identical with numbers held by interface{} fields compared by value (value or failure); each "
         "*WithFile result equals its in-memory counterpart; a typed failure about a setting names the file; a missing file is an "
         "error. The yaml and json results are also compared with the Lean model on the document in the respective number "
-        "representation. Non-trivial: the document contains a number, or the typed unpack fails. Distinct by (shape, number "
+        "representation. Plus: integers beyond 2^53 that float64 holds exactly (up to the int64 limits) into typed targets; objects that exist only as the prefix of dotted names with a typed failure located on them; one option slice with spare capacity handed to all loader calls (must come back unchanged). Non-trivial: the document contains a number, or the typed unpack fails. Distinct by (shape, number "
         "classes, option set, outcome).")
 TRUSTED_BASE = ["Lean 4 kernel", "gopkg.in/yaml.v2, encoding/json and hjson-go are exercised, not modelled: the model starts at the decoded value",
                 "the assumption that they differ only in the representation of numbers is itself checked by comparing both flavours with the model",
